@@ -862,3 +862,55 @@ def _has_const_fact(mf, b, i, txt, val):
         if r is not None and L.text(l) == txt and const_val(r) == val and op == "==":
             return True
     return False
+
+
+def r_append_finish(prog, R, rid):
+    """the two-phase append (start hands out room, the caller writes, finish accounts): finish accounts every length start can hand out"""
+    r = R.rule(rid, "ares_buf_append_finish() accounts exactly the bytes the caller wrote into the room ares_buf_append_start() handed out: it adds the length on every "
+               "path with a buffer (no other guard), and start never offers more than allocation - data - 1", floor=2, analysis="exit vocabulary of the accounting function + linear form of the offered length")
+    fin = prog.func("ares_buf_append_finish", file="src/lib/str/ares_buf.c")
+    buf = fin.params[0]["n"]
+    mf = MustFacts(fin, track_calls=False)
+    adds = [(b, i, el) for b, i, el in fin.elements() if el["k"] == "asg" and _fld(el["e"]["l"], "data_len") and el["e"]["op"] == "+=" and is_var(strip(el["e"].get("r")), fin.params[1]["n"])]
+    k = "append_finish adds the length whenever it has a buffer"
+    if not adds:
+        r.viol(k, fin.name, fin.loc(fin.ln), "ares_buf_append_finish does not add '%s' to data_len" % fin.params[1]["n"])
+    else:
+        ab, ai, ael = adds[0]
+        bad = None
+        seen, work = set(), [(fin.entry, [fin.entry])]
+        while work and bad is None:
+            bid, trail = work.pop()
+            blk = fin.blocks[bid]
+            if any(e2 is ael for e2 in blk.els):
+                continue
+            br = fin.branch(blk)
+            for s2 in fin.succ(bid):
+                if br and br[1] != br[2]:
+                    pol = (br[1] == s2)
+                    if any(is_var(strip(norm_cmp(c3, p3)[1]), buf) and ((norm_cmp(c3, p3)[0] == "==" and norm_cmp(c3, p3)[2] is not None and is_null(norm_cmp(c3, p3)[2])) or norm_cmp(c3, p3)[0] == "false") for c3, p3 in atoms(br[0], pol)):
+                        continue         # no buffer: nothing to account
+                if s2 == fin.exit:
+                    bad = trail
+                elif s2 not in seen:
+                    seen.add(s2)
+                    work.append((s2, trail + [s2]))
+        if bad is not None:
+            r.viol(k, fin.name, fin.loc(ael), "ares_buf_append_finish can return without accounting the bytes the caller wrote (a further guard on the length): a read that fills exactly the room that was handed out is silently dropped, the stream loses those bytes and every later frame is misaligned", trail=trail_lines(fin, bad))
+        else:
+            r.ok(k, fin.loc(ael))
+    st = prog.func("ares_buf_append_start", file="src/lib/str/ares_buf.c")
+    k = "append_start offers allocation - data - 1"
+    okv = False
+    for b, i, el in st.elements():
+        if el["k"] == "asg" and el["e"]["op"] == "=":
+            l = strip(el["e"]["l"])
+            if l is not None and l.get("k") == "un" and l["op"] == "*" and is_var(strip(l["e"]), st.params[1]["n"]):
+                d = L.lin(el["e"].get("r"))
+                b0 = st.params[0]["n"]
+                if {a: v for a, v in d.items() if v} == {"%s->alloc_buf_len" % b0: 1, "%s->data_len" % b0: -1, "": -1}:
+                    okv = True
+    if okv:
+        r.ok(k, st.loc(st.ln))
+    else:
+        r.viol(k, st.name, st.loc(st.ln), "the room reported by ares_buf_append_start is not alloc_buf_len - data_len - 1: the caller may write past the allocation (or the NUL slot)")
